@@ -257,6 +257,14 @@ Definition sample_times (rate : Q) (durs : list Q) : outcome (list Q * list Z) :
          end
   end.
 
+(* ---- time_windows_to_samples on arbitrary binary64 inputs (round 4, decimal stream): both variants compute the product
+   begins * sample_rate / lengths * sample_rate in binary64 (one rounding) and then rint / truncate.  For the dyadic inputs of
+   the exact stream the product is exact and conv64 = conv. *)
+Definition conv64 (sr : Q) (w : Q * Q) : Z * Z := (rint (b64 (fst w * sr)), Qfloor (b64 (snd w * sr))).
+Definition tw_numpy64 (sr : Q) (ws : list (Q * Q)) : list (Z * Z) := map (conv64 sr) (sort_w ws).
+Definition tw_loop64 (sr : Q) (ws : list (Q * Q)) : list (Z * Z) :=
+  if mono_loop (map fst ws) then map (conv64 sr) ws else map (conv64 sr) (sort_w ws).
+
 (* ------------------------------------------------------------------------------------------------------------ *)
 (* ProgramEntry._sample_waveforms *)
 Inductive trafo := TNone | TAffine (a b : Q) | TSquare.
